@@ -38,7 +38,7 @@ func (r *Reader) ReadOpenDir() (string, error) {
 		return "", fmt.Errorf("readStringN failed: %w", err)
 	}
 
-	return filepath.FromSlash(dirPath), nil
+	return cleanPath(dirPath), nil
 }
 
 func (r *Reader) ReadStatFile() (string, error) {
@@ -54,7 +54,7 @@ func (r *Reader) ReadStatFile() (string, error) {
 		return "", fmt.Errorf("readStringN failed: %w", err)
 	}
 
-	return filepath.FromSlash(filePath), nil
+	return cleanPath(filePath), nil
 }
 
 func (r *Reader) ReadOpenFile() (string, error) {
@@ -70,7 +70,7 @@ func (r *Reader) ReadOpenFile() (string, error) {
 		return "", fmt.Errorf("readStringN failed: %w", err)
 	}
 
-	return filepath.FromSlash(filePath), nil
+	return cleanPath(filePath), nil
 }
 
 func (r *Reader) ReadReadFile() (bytesToRead uint32, offset uint64, err error) {
@@ -119,7 +119,7 @@ func (r *Reader) ReadCreateFile() (string, error) {
 		return "", fmt.Errorf("readStringN failed: %w", err)
 	}
 
-	return filepath.FromSlash(filePath), nil
+	return cleanPath(filePath), nil
 }
 
 func (r *Reader) ReadWriteFile() (io.Reader, error) {
@@ -146,7 +146,7 @@ func (r *Reader) ReadDeleteFile() (string, error) {
 		return "", fmt.Errorf("readStringN failed: %w", err)
 	}
 
-	return filepath.FromSlash(filePath), nil
+	return cleanPath(filePath), nil
 }
 
 func (r *Reader) ReadMkdir() (string, error) {
@@ -162,7 +162,7 @@ func (r *Reader) ReadMkdir() (string, error) {
 		return "", fmt.Errorf("readStringN failed: %w", err)
 	}
 
-	return filepath.FromSlash(filePath), nil
+	return cleanPath(filePath), nil
 }
 
 func (r *Reader) ReadRmdir() (string, error) {
@@ -178,7 +178,7 @@ func (r *Reader) ReadRmdir() (string, error) {
 		return "", fmt.Errorf("readStringN failed: %w", err)
 	}
 
-	return filepath.FromSlash(filePath), nil
+	return cleanPath(filePath), nil
 }
 func (r *Reader) ReadGetDirSize() (string, error) {
 	var cmd GetDirSizeCommand
@@ -193,7 +193,13 @@ func (r *Reader) ReadGetDirSize() (string, error) {
 		return "", fmt.Errorf("readStringN failed: %w", err)
 	}
 
-	return filepath.FromSlash(filePath), nil
+	return cleanPath(filePath), nil
+}
+
+// cleanPath converts a path received from a client into a rooted, cleaned local path,
+// so that no ".." element can lead outside of the served root.
+func cleanPath(p string) string {
+	return filepath.Clean(string(filepath.Separator) + filepath.FromSlash(p))
 }
 
 // readCommandTail reads remaining data of command.
